@@ -128,8 +128,10 @@ def gen_selector(rng):
 
 def gen_mquery(rng):
     mt = pick(rng, MEDIA)
-    if rng.random() < 0.6:
+    if rng.random() < 0.45:
         return (None, mt, [])
+    if rng.random() < 0.3:
+        return (pick(rng, ['only', 'not']), mt, [])      # prefixed, no features: not a simple type
     feats = [(pick(rng, ['min-width', 'max-width', 'min-height', 'color', 'orientation']),) for _ in range(rng.randrange(1, 3))]
     feats = [(f[0], {'orientation': 'landscape', 'color': None}.get(f[0], '%dpx' % rng.randrange(100, 999))) for f in feats]
     return (pick(rng, [None, None, 'only', 'not']), mt, feats)
@@ -142,7 +144,11 @@ def gen_rule(rng, level):
         return ('style', [gen_selector(rng) for _ in range(rng.randrange(1, 3))],
                 [gen_decl(rng) for _ in range(rng.randrange(1, 4))])
     if k == 5 and level < 2:
-        qs = [gen_mquery(rng) for _ in range(rng.randrange(1, 3))]
+        qs = [gen_mquery(rng) for _ in range(rng.randrange(1, 4))]
+        if rng.random() < 0.3:
+            # the same media type twice, in different forms: only identical simple types are merged
+            q = qs[0]
+            qs.append(pick(rng, [(None, q[1], []), ('not', q[1], []), (None, q[1], [('color', None)])]))
         return ('media', qs, [gen_rule(rng, level + 1) for _ in range(rng.randrange(1, 3))])
     if k == 6 and level == 0:
         margins = [(pick(rng, MARGINS), [gen_decl(rng)]) for _ in range(rng.randrange(0, 2))]
